@@ -140,14 +140,16 @@ func (s *IndexStorage) Index() (i *index.Index, err error) {
 	return copyIndex(idx), nil
 }
 
-// copyIndex returns a shallow copy of the Index struct with its own
-// copy of the Entries slice, so that callers can append/remove entries
-// without affecting the cached copy. Individual *Entry pointers are
-// shared; this is safe because callers replace entries rather than
-// mutating them in place.
+// copyIndex returns a copy of the Index struct with its own Entries slice
+// and its own copy of every Entry, so that callers can append, remove and
+// modify entries (Worktree.Add updates them in place) without affecting the
+// cached copy.
 func copyIndex(idx *index.Index) *index.Index {
 	cp := *idx
 	cp.Entries = make([]*index.Entry, len(idx.Entries))
-	copy(cp.Entries, idx.Entries)
+	for i, e := range idx.Entries {
+		c := *e
+		cp.Entries[i] = &c
+	}
 	return &cp
 }
